@@ -30,6 +30,8 @@ def has_negative_leaf(t):
             return any(_neg(s) for s in t["data"])
         if t.get("c") == "Num":
             return _neg(t["v"])
+        if t.get("c") == "Var" and t["dom"]["dt"] == 0:
+            return True      # a free real input ranges over negative values too
         if t.get("c") == "Un" and t["op"]["n"] in ("neg", "log"):
             return True
         if t.get("c") == "Bin" and t["op"]["n"] in ("sub", "safesub"):
@@ -50,3 +52,63 @@ def in_carrier(*terms):
         return not any(has_negative_leaf(t) for t in terms if t is not None)
     return True
 
+
+
+def free_names(t):
+    """free input names of an AST (used only to classify violations for known findings,
+    never for a verdict)"""
+    c = t["c"]
+    if c == "Var":
+        return {t["name"]}
+    if c in ("Num",):
+        return set()
+    if c == "Ten":
+        return {n for n, _ in t["ins"]}
+    if c == "Gauss":
+        return {n for n, _ in t["ins"]}
+    if c == "Slice":
+        return {t["name"]}
+    if c == "Un":
+        return free_names(t["arg"])
+    if c == "Bin":
+        return free_names(t["l"]) | free_names(t["r"])
+    if c == "Red":
+        return free_names(t["arg"]) - {n for n, _ in t["vars"]}
+    if c == "Sub":
+        a = free_names(t["arg"])
+        out = a - {k for k, _ in t["subs"]}
+        for k, v in t["subs"]:
+            if k in a:
+                out |= free_names(v)
+        return out
+    if c == "Stack":
+        return {t["name"]} | set().union(*[free_names(p) for p in t["parts"]])
+    if c == "Cat":
+        return (set().union(*[free_names(p) for p in t["parts"]]) - {t["pn"]}) | {t["name"]}
+    if c == "Lam":
+        return free_names(t["expr"]) - {t["var"][0]}
+    if c == "Indep":
+        return (free_names(t["fn"]) - {t["bv"], t["dv"]}) | {t["rv"]}
+    if c == "Con":
+        return set().union(*[free_names(x) for x in t["terms"]]) - {n for n, _ in t["vars"]}
+    if c == "Align":
+        return free_names(t["arg"])
+    if c == "Delta":
+        out = set()
+        for n, p, ld in t["terms"]:
+            out |= {n} | free_names(p) | free_names(ld)
+        return out
+    if c == "Integ":
+        return (free_names(t["measure"]) | free_names(t["integrand"])) - {n for n, _ in t["vars"]}
+    return set()
+
+
+def reduces_absent_var(t):
+    """True iff the root of t reduces a variable that its body does not have free"""
+    c = t.get("c")
+    if c == "Red":
+        return any(n not in free_names(t["arg"]) for n, _ in t["vars"])
+    if c == "Con":
+        body = set().union(*[free_names(x) for x in t["terms"]])
+        return any(n not in body for n, _ in t["vars"])
+    return False
